@@ -154,6 +154,21 @@ fn collections(seed: u64, rep: &mut Report) {
         let before = gen.element_generator.next.get();
         let v2: Vec<El> = gen.sample(&mut rng);
         check_serials("Vec/second-sample", size, &v2.iter().map(|e| e.serial).collect::<Vec<_>>(), before, gen.element_generator.next.get() - before, rep);
+        // size and element generator are public fields of the collection generator: what counts is
+        // their value when the collection is drawn (a size changed after construction, and after
+        // earlier samples, is the size delivered; a replaced element generator is the one asked)
+        if size <= 4097 {
+            let mut gen = gen;
+            let other = sizes[(k * 7 + 3) % 140];
+            gen.size = other;
+            let before = gen.element_generator.next.get();
+            let v3: Vec<El> = gen.sample(&mut rng);
+            check_serials("Vec/size-field-reassigned", other, &v3.iter().map(|e| e.serial).collect::<Vec<_>>(), before, gen.element_generator.next.get() - before, rep);
+            gen.element_generator = Counting::new(first + 1_000_000);
+            gen.size = size;
+            let v4: Vec<El> = gen.sample(&mut rng);
+            check_serials("Vec/element-generator-field-replaced", size, &v4.iter().map(|e| e.serial).collect::<Vec<_>>(), first + 1_000_000, gen.element_generator.next.get() - (first + 1_000_000), rep);
+        }
         // Bitstring
         let c = Counting::new(0);
         let b: Bitstring = c.to_collection_generator(size).sample(&mut rng);
